@@ -402,20 +402,37 @@ func c10r3(c *an.Ctx) {
 func c10r4(c *an.Ctx) {
 	a := A(c)
 	sa := streamA(c)
-	hp := c.Fn("drpcstream", "(*Stream).HandlePacket")
+	_ = c.Fn("drpcstream", "(*Stream).HandlePacket")
 	unmarshalErr := a.obj("drpcwire", "UnmarshalError")
 	pktData := a.field("drpcwire", "Packet", "Data")
 	kinds := kindConsts(c)
 	n := 0
-	for _, cs := range an.CallsTo(hp, false, sa.terminate) {
-		if !guardedByKind(cs.Instr.Block(), kinds["KindError"], true) {
+	parts := handlePacketParts(c)
+	var termSites []an.CallSite
+	for _, pf := range parts.fns {
+		termSites = append(termSites, an.CallsTo(pf, false, sa.terminate)...)
+	}
+	for _, cs := range termSites {
+		if !parts.inKind(cs.Instr, kinds["KindError"]) {
 			continue
 		}
 		n++
 		arg := an.Arg(cs.Common(), 0)
 		ok := false
-		if call, isCall := arg.(*ssa.Call); isCall && an.IsCallTo(call.Common(), unmarshalErr) && isLoadOfField(call.Common().Args[0], pktData) {
-			ok = true
+		if call, isCall := arg.(*ssa.Call); isCall && an.IsCallTo(call.Common(), unmarshalErr) {
+			src := call.Common().Args[0]
+			if isLoadOfField(src, pktData) {
+				ok = true
+			}
+			// a dispatched handler that is handed the packet's data as a parameter
+			if as := parts.argsFor(src); len(as) > 0 {
+				ok = true
+				for _, a := range as {
+					if !isLoadOfField(a, pktData) {
+						ok = false
+					}
+				}
+			}
 		}
 		c.Check(ok, "HandlePacket KindError | terminate(UnmarshalError(pkt.Data))", c.At(cs.Instr), "", "the remote error is not decoded from the packet and made the termination cause: "+an.R(arg))
 	}
